@@ -93,7 +93,8 @@ def store_cid(ctx, rows, how, tag):
 def store_data(ctx, table, fmt):
     if fmt == "delimited":
         path = os.path.join(ctx.tmp, "data.csv")
-        with open(path, "w", encoding="utf-8", newline="") as f:
+        # every third file starts with the byte order mark of "CSV UTF-8" exports: part of the storage, not of the first cell
+        with open(path, "w", encoding="utf-8-sig" if len(table) % 3 == 0 else "utf-8", newline="") as f:
             f.write(storage.delimited_text(table))
     elif fmt == "ods":
         path = os.path.join(ctx.tmp, "data.ods")
